@@ -1,0 +1,26 @@
+//go:build verif
+
+package server
+
+// Accessor for the verification harness under /verif (build tag "verif"): the unexported
+// grpcServer as an ActionCacheServer, for in-process calls of UpdateActionResult and
+// GetActionResult with messages that cannot travel over the wire (nil elements).
+// Nothing in this file is compiled into a normal build.
+
+import (
+	"github.com/buchgr/bazel-remote/v2/cache"
+	"github.com/buchgr/bazel-remote/v2/cache/disk"
+
+	pb "github.com/buchgr/bazel-remote/v2/genproto/build/bazel/remote/execution/v2"
+)
+
+func VerifNewACServer(c disk.Cache, a cache.Logger, e cache.Logger, depsCheck bool, mangleACKeys bool, maxCasBlobSizeBytes int64) pb.ActionCacheServer {
+	return &grpcServer{
+		cache:               c,
+		accessLogger:        a,
+		errorLogger:         e,
+		depsCheck:           depsCheck,
+		mangleACKeys:        mangleACKeys,
+		maxCasBlobSizeBytes: maxCasBlobSizeBytes,
+	}
+}
